@@ -17,13 +17,13 @@ func init() { props["C12"] = runC12 }
 // ---- case representation ----------------------------------------------------
 
 type pageSettingsJ struct {
-	Size   string  `json:"size"`
-	CW, CH int64   // micrometres
-	Ori    string  `json:"ori"`
+	Size   string   `json:"size"`
+	CW, CH int64    // micrometres
+	Ori    string   `json:"ori"`
 	L      [7]int64 `json:"lens_um"` // top right bottom left header footer gutter
-	GType  string  `json:"gtype"`
-	Pitch  int64   `json:"pitch"`
-	CS     int64   `json:"cs"`
+	GType  string   `json:"gtype"`
+	Pitch  int64    `json:"pitch"`
+	CS     int64    `json:"cs"`
 }
 
 type pageOp struct {
@@ -35,15 +35,15 @@ type pageOp struct {
 }
 
 type pageObs struct {
-	OK    bool
-	PG    *[3]string // w h orient
-	Mar   *[7]string
-	Grid  *[3]string
-	Size  string
-	CW, CH float64
-	Ori   string
-	Lens  [7]float64
-	GType string
+	OK        bool
+	PG        *[3]string // w h orient
+	Mar       *[7]string
+	Grid      *[3]string
+	Size      string
+	CW, CH    float64
+	Ori       string
+	Lens      [7]float64
+	GType     string
 	Pitch, CS int
 }
 
@@ -318,13 +318,13 @@ func (op pageOp) coq() string {
 const twipMM = 1.0 / 56.692913385827
 
 type pageExpect struct {
-	size   string // predefined name or "Custom"
-	cw, ch float64
-	land   bool
-	lens   [7]float64
-	gtype  string
-	pitch  int
-	cs     int
+	size    string // predefined name or "Custom"
+	cw, ch  float64
+	land    bool
+	lens    [7]float64
+	gtype   string
+	pitch   int
+	cs      int
 	nearStd bool // the standard size was reported for a custom size within the 1 mm tolerance
 }
 
